@@ -1233,7 +1233,7 @@ fn zone_any() -> BoxedStrategy<ZoneSel> {
     .boxed()
 }
 
-fn merge_case() -> BoxedStrategy<MergeCase> {
+pub fn merge_case() -> BoxedStrategy<MergeCase> {
     let ty_op = proptest::sample::select(vec![
         (Ty::Date, Op::With),
         (Ty::Date, Op::With),
@@ -1265,7 +1265,7 @@ fn merge_case() -> BoxedStrategy<MergeCase> {
         .boxed()
 }
 
-fn ctor_case() -> BoxedStrategy<CtorCase> {
+pub fn ctor_case() -> BoxedStrategy<CtorCase> {
     (
         proptest::sample::select(vec![Ty::Date, Ty::Time, Ty::DateTime, Ty::YearMonth]),
         proptest::sample::select(vec![Ctor::New, Ctor::TryNew, Ctor::WithOverflow(false), Ctor::WithOverflow(true)]),
@@ -1298,7 +1298,7 @@ fn ctor_case() -> BoxedStrategy<CtorCase> {
         .boxed()
 }
 
-fn identity_case() -> BoxedStrategy<IdentityCase> {
+pub fn identity_case() -> BoxedStrategy<IdentityCase> {
     (proptest::sample::select(vec![Ty::Date, Ty::Time, Ty::DateTime, Ty::YearMonth]), gen::datetime(), 0u16..1024, ov_any())
         .prop_map(|(ty, (recv_day, recv_ns), mask, ov)| {
             let (recv_day, recv_ns) = match ty {
@@ -1344,7 +1344,7 @@ fn law_partial() -> BoxedStrategy<(PD, PT)> {
         });
     (pd, pt).boxed()
 }
-fn compose_case() -> BoxedStrategy<ComposeCase> {
+pub fn compose_case() -> BoxedStrategy<ComposeCase> {
     (proptest::sample::select(vec![Ty::Date, Ty::Time, Ty::DateTime, Ty::DateTime, Ty::YearMonth]), gen::datetime(), law_partial(), law_partial())
         .prop_map(|(ty, (recv_day, recv_ns), p1, p2)| {
             let (recv_day, recv_ns) = match ty {
